@@ -14,13 +14,23 @@ use crate::ev::{guard, unit, Plan, Tier};
 /// musical symbol shares F0 with them.
 pub const A8: [char; 8] = ['a', '\u{e9}', '\u{ea}', '\u{2603}', '\u{2602}', '\u{1F600}', '\u{1F601}', '\u{1D11E}'];
 
+/// A8 plus three characters that share the FINAL byte (but not the leading
+/// bytes) with a character of A8: U+A9 (C2 A9) with e-acute (C3 A9), U+2643
+/// (E2 99 83) with U+2603 (E2 98 83), U+1D100 (F0 9D 84 80) with U+1F600
+/// (F0 9F 98 80).
+pub const A11: [char; 11] = ['a', '\u{e9}', '\u{ea}', '\u{2603}', '\u{2602}', '\u{1F600}', '\u{1F601}', '\u{1D11E}', '\u{a9}', '\u{2643}', '\u{1D100}'];
+
 pub fn strings(maxlen: usize) -> Vec<String> {
+    strings_over(&A8, maxlen)
+}
+
+pub fn strings_over(alpha: &[char], maxlen: usize) -> Vec<String> {
     let mut out = vec![String::new()];
     let mut last = vec![String::new()];
     for _ in 0..maxlen {
         let mut next = vec![];
         for s in &last {
-            for c in A8 {
+            for &c in alpha {
                 let mut t = s.clone();
                 t.push(c);
                 next.push(t);
@@ -171,6 +181,8 @@ pub fn replay(case: &Value) -> Result<String, String> {
             let map = Map::from_iter(keys.iter().enumerate().map(|(i, k)| (k, i as u64))).unwrap();
             run_search(q, d, &set, &map, &keys).map(|n| format!("{} searches agree", n))
         }
+        "accept-a11" => run_query(q, d, &strings_over(&A11, kl)).map(|n| format!("{} keys agree", n)),
+        "accept-long" => run_query(q, d, &strings_over(&['a', 'b', '\u{e9}'], kl)).map(|n| format!("{} keys agree", n)),
         _ => run_query(q, d, &strings(kl)).map(|n| format!("{} keys agree", n)),
     }
 }
@@ -179,7 +191,7 @@ pub fn plan(tier: Tier) -> Plan {
     let mut p = Plan::new("C17", "model_checking");
     let thorough = tier.thorough();
     let klen = if thorough { 5 } else { 4 };
-    p.rule = format!("alphabet A8 = {{a, e-acute, e-circumflex, U+2603, U+2602, U+1F600, U+1F601, U+1D11E}} (1/2/2/3/3/4/4/4 bytes; pairs sharing lead and continuation bytes); ALL queries q with |q| <= 3 (585) x d in {{0,1,2}} x ALL keys k with |k| <= {} : the UTF-8 bytes of k are fed through start/accept and is_match is compared with Wagner-Fischer on scalar values; can_match must be true on every proper prefix of a matching key; the same queries as Set/Map::search (also under complement() and starts_with()) over the set of all keys of length <= 3; state limit: for every (q,d) with |q| <= 2, N = states of the unlimited build (hook H4), new_with_limit(q,d,l) for every l in 0..=N+2 is TooManyStates(l) iff l < N and otherwise answers like the unlimited automaton. non-trivial = (q,d,k) triples with q != k and both non-empty", klen);
+    p.rule = format!("alphabet A8 = {{a, e-acute, e-circumflex, U+2603, U+2602, U+1F600, U+1F601, U+1D11E}} (1/2/2/3/3/4/4/4 bytes; pairs sharing lead and continuation bytes); ALL queries q with |q| <= 3 (585) x d in {{0,1,2}} x ALL keys k with |k| <= {} : the UTF-8 bytes of k are fed through start/accept and is_match is compared with Wagner-Fischer on scalar values; can_match must be true on every proper prefix of a matching key; additionally all |q| <= 2 (thorough 3) x |k| <= 3 (4) over A11 = A8 + three characters sharing only the FINAL byte with a character of A8, and all |q| <= 6 (7) x |k| <= 6 (8) over {{a, b, e-acute}} (long queries with repeated characters); the same queries as Set/Map::search (also under complement() and starts_with()) over the set of all keys of length <= 3; state limit: for every (q,d) with |q| <= 2, N = states of the unlimited build (hook H4), new_with_limit(q,d,l) for every l in 0..=N+2 is TooManyStates(l) iff l < N and otherwise answers like the unlimited automaton. non-trivial = (q,d,k) triples with q != k and both non-empty", klen);
     p.assumptions = vec!["edit distance = insertions, deletions, substitutions of Unicode scalar values (no transpositions)".into()];
     let queries = strings(3);
     let keys = Arc::new(strings(klen));
@@ -222,6 +234,52 @@ pub fn plan(tier: Tier) -> Plan {
             }
         }));
     }
+    // (b) extended alphabet A11 (characters sharing only their final byte)
+    {
+        let qs = strings_over(&A11, if thorough { 3 } else { 2 });
+        let ks = Arc::new(strings_over(&A11, if thorough { 4 } else { 3 }));
+        let chunk = (qs.len() + 31) / 32;
+        for part in qs.chunks(chunk) {
+            let part = part.to_vec();
+            let ks = ks.clone();
+            p.units.push(unit("A11-final-byte-sharing-characters", format!("A11 queries from {:?}", part[0]), move |st, rep| {
+                for q in &part {
+                    for d in 0..=2u32 {
+                        if rep.stopped() { return; }
+                        st.states += 1;
+                        match run_query(q, d, &ks) {
+                            Ok(n) => { st.evals += n; st.transitions += n * 8; st.nontrivial += n - 1; st.count("a11_triples", n); }
+                            Err(msg) => rep.violation(format!("A11 q={:?} d={}", q, d), msg, json!({"kind": "accept-a11", "q": q, "d": d, "klen": 3})),
+                        }
+                    }
+                }
+            }));
+        }
+    }
+    // (c) long queries over a tiny alphabet {a, b, e-acute}: repeated characters,
+    // rows with gaps between live cells
+    {
+        let alpha = ['a', 'b', '\u{e9}'];
+        let qs = strings_over(&alpha, if thorough { 7 } else { 6 });
+        let ks = Arc::new(strings_over(&alpha, if thorough { 8 } else { 6 }));
+        let chunk = (qs.len() + 63) / 64;
+        for part in qs.chunks(chunk) {
+            let part = part.to_vec();
+            let ks = ks.clone();
+            p.units.push(unit("long-queries-over-{a,b,e-acute}", format!("long queries from {:?}", part[0]), move |st, rep| {
+                for q in &part {
+                    for d in 0..=2u32 {
+                        if rep.stopped() { return; }
+                        st.states += 1;
+                        match run_query(q, d, &ks) {
+                            Ok(n) => { st.evals += n; st.transitions += n * 8; st.nontrivial += n - 1; st.count("long_query_triples", n); }
+                            Err(msg) => rep.violation(format!("long q={:?} d={}", q, d), msg, json!({"kind": "accept-long", "q": q, "d": d, "klen": 6})),
+                        }
+                    }
+                }
+            }));
+        }
+    }
     let lq: Vec<String> = strings(2);
     let chunk = (lq.len() + 31) / 32;
     for part in lq.chunks(chunk) {
@@ -242,6 +300,6 @@ pub fn plan(tier: Tier) -> Plan {
             }
         }));
     }
-    p.must_be_nonzero = vec!["searches".into(), "limits_checked".into()];
+    p.must_be_nonzero = vec!["searches".into(), "limits_checked".into(), "a11_triples".into(), "long_query_triples".into()];
     p
 }
